@@ -7,10 +7,22 @@ for every string, the DOT string reader (`Quote.dotDialect`: `\"` is a quote, `\
 everything else is kept) gives back the original text from the escaped constant — so no label can
 end its string early or be altered, whatever quotes and backslashes it contains.  The run parses
 the real files with `Model/Dot.lean` and compares the graph with the library's automaton.
+
+And over a model of the emitter itself (`Model/DotEmit.lean`: `DFA::to_dot` / `do_to_dot` line by line —
+node shapes, the dead state 0 among the plain nodes, clusters for the within-word automata numbered in
+order of first use, labelled edges with `diagnostic_display_input` and the label chain, dashed entry
+and exit edges — compared byte for byte with the real `--dfa` file on every case of the run):
+`dfa_dump_shows_the_automaton` — for *every* automaton, pool of within-word automata and numbering
+base, whatever characters its literals, descriptions and commands contain, the text the emitter
+writes is read by the DOT reader as exactly the graph `expectedStmts` describes (one node per state,
+one labelled edge per transition, one cluster per within-word automaton …), in particular
+`dfa_dump_well_formed`; and `dfa_label_displayed` — what graphviz displays for a label is the item's
+text.
 -/
 import Complgen.Proofs.Quote
 import Complgen.Gen.Chains
 import Complgen.Model.Dot
+import Complgen.Proofs.DotEmit
 namespace Complgen.Props.C16
 open Complgen.Quote Complgen.Gen
 
@@ -30,5 +42,26 @@ theorem dot_dfa_label_roundtrip (s : List Char) :
 example : Dot.lexQuoted ['a', '\\', '"', 'b', '"', 'x'] [] = some (['a', '"', 'b'], ['x']) ∧
     Dot.lexQuoted ['a', '\\', '\\', '"', 'b', '"'] [] = some (['a', '\\', '\\'], ['b', '"']) := by
   decide
+
+/-- **The `--dfa` dump shows the automaton**: the text of the emitter model parses to the expected graph,
+for every automaton and every numbering base. -/
+theorem dfa_dump_shows_the_automaton (d : Dfa) (base : Nat) :
+    Dot.parse (Dot.emitDfa d base) = some ("dfa", Dot.expectedStmts d base) :=
+  Dot.emitDfa_parse d base
+
+/-- **… and is always well-formed DOT** -/
+theorem dfa_dump_well_formed (d : Dfa) (base : Nat) : (Dot.parse (Dot.emitDfa d base)).isSome = true :=
+  Dot.emitDfa_wellFormed d base
+
+/-- an edge label, as written by the emitter (`escLabel`), is read by the string reader as a value whose
+displayed form is the original text -/
+theorem dfa_label_displayed (s rest acc : List Char) :
+    Dot.lexQuoted (Dot.escLabel s ++ '"' :: rest) acc = some (acc ++ Dot.labelValue s, rest) ∧
+    Dot.display (Dot.labelValue s) = s :=
+  ⟨Dot.lexQuoted_escLabel s rest acc, Dot.display_labelValue s⟩
+
+/-- the label chain of the emitter model is the chain regenerated from the source -/
+theorem emitter_chain_is_source_chain : Dot.dotLabelChain = Complgen.Gen.dotDfaLabelChain :=
+  Dot.dotLabelChain_eq_gen
 
 end Complgen.Props.C16
